@@ -139,6 +139,9 @@ func buildC15(tier string, seed int64) *Family {
 	exprs = append(exprs, "$x", "$x/a", "$x = 1", "a[$x]", "count($x)", "$p:x", "1[1]", "'a'[1]", "true()[1]", "(1)[1]", "9001[9002]", "'#S1'['#S2']",
 		"a[9001]", "*[9001]", "//*[9001]", "(//*)[9001]", "a[position() = 9001]", "a[last() - 9001]", "a[9001][9002]", "*[-9001]", "a[9001 mod 9002]",
 		"processing-instruction()", "processing-instruction('x')", "a/processing-instruction()", "node()", "text()", "comment()", "a = 1 or * = 1", "a = 1 and * = 1", "(a = 1) | (b = 1)", "a | 1", "1 | a", "(1, 2)", "a/(1)", "a/(b, 2)")
+	// patterns that only exist at evaluation time (and do not compile), looked up more than once
+	exprs = append(exprs, "matches('abc', concat('[', 'a'))", "replace('abc', concat('(', 'b'), 'x')", "matches(a, concat('(', @a))", "//*[matches(., concat('[', .))]",
+		"matches('abc', concat('[', 'a')) or matches('abc', concat('[', 'a'))", "count(//*[matches(., concat('*', ''))])", "replace(a, concat('[', ''), '#S1')")
 	// non-ASCII strings (concrete probes: byte length differs from character length)
 	exprs = append(exprs, "translate('abcabc', 'abc', 'é')", "translate('abc', 'é', 'x')", "translate('éa', 'é', 'ab')", "translate('abc', 'cba', 'éx')", "translate(a, 'cba', 'éxyz')",
 		"substring('日本語', 2)", "substring('日本語', 2, 1)", "string-length('é')", "normalize-space(' é  ü ')", "lower-case('ÉA')", "contains('é', 'é')", "starts-with('éa', 'é')",
